@@ -98,7 +98,7 @@ CLAIMED["C03"] = dict(
 CLAIMED["C05"] = dict(
     category="exploration",
     technique="bounded-exhaustive enumeration of all hydrocarbon record pairs x (T, x, pressure fraction) lattice x {bubble, dew at T and p, flash, diagrams}; equilibrium conditions recomputed outside the solvers",
-    text="All unordered pairs of the 51 shipped PC-SAFT hydrocarbon records with T_c ratio < 1.8 are solved on the (T, x) lattice for bubble and dew points at given T and p and for flashes strictly inside the envelope (success clause for ratio < 1.5), plus binary_vle / bubble- and dew-point lines, other model families, a ternary, LLE and the heteroazeotrope; for every returned result common T and p, equality of x_i phi_i, distinctness of the phases, exact echo of the specification, p_bub >= p_dew and the material balance are recomputed. Flash failures on the pinned tree are listed per (pair, T, x, pressure fraction). Every interior flash is also warm-started from that equilibrium at four neighbouring (T, p) through both entry points; bubble and dew points are re-solved with four non-default (inner, outer) option pairs and compared with the default answer; the isobaric LLE diagram must lie on its temperature grid. The pressure-specified heteroazeotrope is solved from exact, perturbed and flash compositions (common T, specified p, isofugacity, temperature of the temperature-specified point reproduced).",
+    text="All unordered pairs of the 51 shipped PC-SAFT hydrocarbon records with T_c ratio < 1.8 are solved on the (T, x) lattice for bubble and dew points at given T and p and for flashes strictly inside the envelope (success clause for ratio < 1.5), plus binary_vle / bubble- and dew-point lines, other model families, a ternary, LLE and the heteroazeotrope; for every returned result common T and p, equality of x_i phi_i, distinctness of the phases, exact echo of the specification, p_bub >= p_dew and the material balance are recomputed. Flash failures on the pinned tree are listed per (pair, T, x, pressure fraction). Every interior flash is also warm-started from that equilibrium at four neighbouring (T, p) through both entry points; bubble and dew points are re-solved with four non-default (inner, outer) option pairs and compared with the default answer; the isobaric LLE diagram must lie on its temperature grid. The pressure-specified heteroazeotrope is solved from exact, perturbed and flash compositions (common T, specified p, isofugacity, temperature of the temperature-specified point reproduced). Liquid-liquid saturation points of water + hexane at 100 bar are computed through bubble_point and dew_point from both sides (incipient phase denser / less dense than the specified phase) and must echo the specified composition in the specified phase.",
     design_ref="§5 C05",
 )
 
@@ -120,7 +120,7 @@ CLAIMED["C12"] = dict(
     category="fault_enumeration",
     engine="deviation",
     technique="deviation-bounded exploration: every non-empty subset of a phase diagram's solver calls forced to fail through injection hooks (2^(n-1)-1 histories per diagram), plus an exhaustive guess lattice; differential oracle against the stand-alone solve",
-    text="Pure diagrams (4, 6, 9 points) and binary_vle / bubble- / dew-point lines (5-8 points) are re-run with every non-empty subset of their solver calls forced to fail by the H3 hooks: exactly the forced points must go missing and every surviving point must equal the undisturbed point, which in turn must equal the stand-alone solve without guess; nested numbers of points must share points; pure, bubble/dew and flash calculations are repeated over a lattice of pressure / temperature / composition guesses within a factor 3 and with cascade stages forced to fail, and compared with the result obtained without guess. Pure-component guesses include states AT the requested temperature that are not the solution (two phases at 0.8/0.95/1.05 p_sat, coarse-tolerance solutions). Mixture guesses are also enumerated at 0.97 and 0.99 of the lower critical temperature (guesses next to the solution only, since two dew points exist there). Pure-component warm starts also come from states 2 and 4 times closer to T_c than the requested temperature (phase order checked).",
+    text="Pure diagrams (4, 6, 9 points) and binary_vle / bubble- / dew-point lines (5-8 points) are re-run with every non-empty subset of their solver calls forced to fail by the H3 hooks: exactly the forced points must go missing and every surviving point must equal the undisturbed point, which in turn must equal the stand-alone solve without guess; nested numbers of points must share points; pure, bubble/dew and flash calculations are repeated over a lattice of pressure / temperature / composition guesses within a factor 3 and with cascade stages forced to fail, and compared with the result obtained without guess. Pure-component guesses include states AT the requested temperature that are not the solution (two phases at 0.8/0.95/1.05 p_sat, coarse-tolerance solutions). Mixture guesses are also enumerated at 0.97 and 0.99 of the lower critical temperature (guesses next to the solution only, since two dew points exist there). Pure-component warm starts also come from states 2 and 4 times closer to T_c than the requested temperature (phase order checked). bubble_point_line and dew_point_line are also run with caller-supplied (inner, outer) solver options that differ from each other (loose inner loop; different iteration limits), every point compared with the stand-alone solve using the same options.",
     design_ref="§5 C12, §4.3",
 )
 
